@@ -75,6 +75,7 @@ class ClassInfo:
     def method(self, name: str, kind: str | None = None) -> FuncInfo | None:
         """kind: None = plain/first, 'setter', 'getter'."""
         defs = self.methods.get(name, [])
+        defs = [d for d in defs if not any(x.endswith("overload") for x in d.decorator_names())] or defs
         for f in defs:
             decs = f.decorator_names()
             is_setter = any(d.endswith(".setter") for d in decs)
@@ -194,7 +195,9 @@ class Index:
                     # keep first plain def under the bare qualname, setters under "<q>.setter"
                     decs = fi.decorator_names()
                     key = q + ".setter" if any(d.endswith(".setter") for d in decs) else q
-                    mi.functions.setdefault(key, fi)
+                    prev = mi.functions.get(key)
+                    if prev is None or any(d.endswith("overload") for d in prev.decorator_names()):
+                        mi.functions[key] = fi  # typing.overload stubs are replaced by the implementation
                     self.n_functions += 1
                     # nested defs (closures) are indexed under "<q>.<locals>."
                     visit(st.body, q + ".<locals>.", None)
